@@ -226,7 +226,7 @@ def run(ctx):
                             all(t["out"] == render_out(x["out"]) and (t["verdict"] == "FAILED") == (x["fails"] > 0) for t, x in zip(tests[:j], w[:j])):
                         hit = s; break
                     continue
-                if stop and w[stop[0]]["status"].split(":")[0] in ("stuck", "unspecified") and not built[pid].get("twin_only"):
+                if stop and w[stop[0]]["status"].split(":")[0] in ("stuck", "unspecified", "fuel") and not built[pid].get("twin_only"):
                     # under this deviation the evaluator goes on with a value the specification has no meaning for (void from a
                     # refused array operation): the model can follow the run only up to that point, and must agree up to there
                     j = stop[0]
